@@ -5,7 +5,7 @@ use arbitrary::Unstructured;
 
 use crate::engine::F;
 use crate::gen::{self, ParamSpec, Site, WeatherSpec};
-use crate::props::{c07, c18};
+use crate::props::{c07, c08, c10, c18};
 
 fn frac(u: &mut Unstructured) -> f64 {
     let x: u32 = u.arbitrary().unwrap_or(0);
@@ -143,4 +143,95 @@ pub fn c18_case(data: &[u8]) -> c18::Case {
         r => c18::Input::Composite { kind: r - 3, field: text },
     };
     c18::Case { ty, input }
+}
+
+/// Ingredients shared by the policy targets: a site with |lat| <= `max_lat` (atoms on the polar circle, the bound and the
+/// classic substitute latitude; a band on the polar-night/polar-day edge), GMT within 2 h of the meridian, a named
+/// method, a policy with its substitute latitude, optional intervals where the policy consumes them, rounding, date.
+fn policy_parts(data: &[u8], max_lat: f64, max_plat: f64) -> (Site, ParamSpec, chrono::NaiveDate) {
+    let mut u = Unstructured::new(data);
+    let sgn = |u: &mut Unstructured| if byte(u) & 1 == 0 { 1.0 } else { -1.0 };
+    let lat = match byte(&mut u) % 8 {
+        0 => pick(&mut u, &[max_lat, -max_lat, 66.56, -66.56, 60.0, -60.0, 48.5, 0.0]).clamp(-max_lat, max_lat),
+        1 | 2 => range(&mut u, 45.0, max_lat) * sgn(&mut u),
+        3 => range(&mut u, 66.4, 69.6).min(max_lat) * sgn(&mut u),
+        4 => range(&mut u, 58.0, 62.0).min(max_lat) * sgn(&mut u),
+        _ => range(&mut u, -max_lat, max_lat),
+    };
+    let lon = match byte(&mut u) % 6 {
+        0 => pick(&mut u, &[180.0, -180.0, 0.0]),
+        _ => range(&mut u, -180.0, 180.0),
+    };
+    let gmt = (lon / 15.0 + range(&mut u, -2.0, 2.0)).clamp(-12.0, 12.0);
+    let elev = if byte(&mut u) % 3 == 0 { range(&mut u, -420.0, 8848.0) } else { 0.0 };
+    let mut method = 1 + byte(&mut u) % 8;
+    // the nearest-good-day policies are costly at high latitude: 1/16 of the byte range
+    let pb = byte(&mut u);
+    let policy = if pb % 16 == 15 { 5 + (pb / 16) % 2 } else { [1u8, 2, 3, 4, 7, 8, 9, 10, 11, 12, 13, 14][(pb % 16) as usize % 12] };
+    if gen::policy_consumes_intervals(policy) && method >= 7 {
+        method = gen::ANGLE_METHODS[(method as usize + policy as usize) % 6];
+    }
+    let mut spec = ParamSpec::plain(method);
+    spec.policy = policy;
+    spec.policy_lat = F(match byte(&mut u) % 5 {
+        0 => pick(&mut u, &[max_plat, -max_plat, 0.0, 48.5, -48.5, 60.0]).clamp(-max_plat, max_plat),
+        1 => (lat + range(&mut u, -0.001, 0.001)).clamp(-max_plat, max_plat),
+        _ => range(&mut u, -max_plat, max_plat),
+    });
+    spec.rounding = byte(&mut u) % 4;
+    let iv = |u: &mut Unstructured| -> Option<F> {
+        match byte(u) % 4 {
+            0 | 1 => None,
+            2 => Some(F(pick(u, &[1.0, 90.0, 120.0]))),
+            _ => Some(F(range(u, 1.0, 120.0))),
+        }
+    };
+    let (fi, ii) = (iv(&mut u), iv(&mut u));
+    if gen::policy_consumes_intervals(policy) || policy == gen::P_MIN_ALWAYS {
+        spec.fajr_interval = fi;
+        if spec.intervals().1 == 0.0 {
+            spec.isha_interval = ii;
+        }
+    }
+    let di: u32 = u.arbitrary().unwrap_or(0);
+    let mut date = gen::date_from_index((di as i64) % gen::n_dates());
+    // a third of the inputs sit within 40 days of a solstice (where times go missing)
+    let sb = byte(&mut u);
+    if sb % 3 == 0 {
+        use chrono::Datelike;
+        let off = (sb / 3) as i64 - 40;
+        let base = chrono::NaiveDate::from_ymd_opt(date.year().clamp(1601, 2398), if sb & 64 == 0 { 6 } else { 12 }, 21).unwrap();
+        date = base + chrono::Duration::days(off.clamp(-40, 40));
+    }
+    (Site { lat: F(lat), lon: F(lon), elev: F(elev), gmt: F(gmt) }, spec, date)
+}
+
+pub fn c08_case(data: &[u8]) -> c08::Case {
+    let (site, spec, date) = policy_parts(data, 70.0, 66.0);
+    c08::Case { site, spec, date, polar_day_edge: None }
+}
+
+pub fn c10_case(data: &[u8]) -> c10::Case {
+    let (site, mut spec, date) = policy_parts(data, 60.0, 60.0);
+    // the ten policies of the statement
+    const P: [u8; 10] = [2, 3, 4, 7, 8, 9, 10, 1, 13, 14];
+    if !P.contains(&spec.policy) {
+        spec.policy = P[spec.policy as usize % 10];
+    }
+    if gen::policy_consumes_intervals(spec.policy) && spec.method >= 7 {
+        spec.method = gen::ANGLE_METHODS[spec.method as usize % 6];
+    }
+    // custom intervals only where the generator has them (the minutes-from-maghrib policies): the quantifier is over the
+    // 8 named methods
+    if spec.policy != gen::P_MIN_ALWAYS && spec.policy != gen::P_MIN_INV {
+        spec.fajr_interval = None;
+        spec.isha_interval = None;
+    }
+    // as in the proptest generator: unrounded seconds (3 s agreement is meaningless under minute rounding), and the
+    // minutes-from-maghrib 'invalid' policy always has a Fajr amount
+    spec.rounding = 0;
+    if spec.policy == gen::P_MIN_INV && spec.fajr_interval.is_none() {
+        spec.fajr_interval = Some(F(45.0));
+    }
+    c10::Case { site, spec, date }
 }
